@@ -610,7 +610,7 @@ theorem loopA_size (r : Rule) (pw : K → K) (x : ℕ → K) :
   | cons w ws ih =>
     intro y
     obtain ⟨s, e, I⟩ := w
-    simp only [loopA]
+    simp only [loopA, updWith_eq]
     rw [ih, tab_size]
 
 /-- integral matching returns as many ordinates as it was given -/
